@@ -1,5 +1,6 @@
 import Proofs.BatchLemmas
 import Pegnet.Generated.Facts
+import Proofs.Holding
 /-
   C17 — History and status tell the truth about the ledger.
 -/
@@ -95,6 +96,17 @@ theorem unconvertible_amount_stays_pending :
       [{ inAddr := "alice", inType := 2, inAmount := 4611686018427387904, transfers := [], conversion := 3 }] = .dropped := by
   decide
 
+/-- "pending only while it is still waiting", the part that holds: once a rated block above the
+    holding height is applied, a held batch has had a status written (or bears a replay mark),
+    EXCEPT when its conversion is not computable — the `.dropped` case witnessed by
+    `unconvertible_amount_stays_pending`, which is why this theorem is `_partial`. -/
+theorem pending_only_while_waiting_partial {P : Params} {c : DB} {b : Block} {avgs : TMap} {s' : DB}
+    (hrun : blockTx P c b avgs c = .ok () s') (htx : b.height ≥ P.act.txConv) :
+    (∃ s1 s2 st, gradeAndRates P c b s1 = .ok st s2 ∧ st ≠ .cont true) ∨
+    ∃ rates, ∀ row ∈ c.holding, (c.mostRecentRatesBefore b.height).2 ≤ row.height → row.height < b.height →
+      Considered P b.height rates avgs c s' row.entry :=
+  block_considers_held hrun htx
+
 end Pegnet.C17
 
 #print axioms Pegnet.C17.pages_concat
@@ -104,3 +116,4 @@ end Pegnet.C17
 #print axioms Pegnet.C17.reject_has_no_effect
 #print axioms Pegnet.C17.set_executed_exact
 #print axioms Pegnet.C17.unconvertible_amount_stays_pending
+#print axioms Pegnet.C17.pending_only_while_waiting_partial
